@@ -158,6 +158,9 @@ func runC05(t *testing.T, tape *sim.Tape, tier string) *Outcome {
 		}
 		c.setReqs(reqs)
 		c.start()
+		// one connection goroutine at a time: it runs up to its first read before the next one starts (what they
+		// share - tracer, handler double - sees them in a seed-determined order)
+		w.S.Wait()
 	}
 
 	type callRec struct {
